@@ -132,6 +132,7 @@ class Analyzer:
         self.notes = []
         self.stack = []
         self.branch_hook = None
+        self.ret_vals = []
 
     # ---- abstract values -------------------------------------------------
     def new_slot(self, width):
@@ -199,6 +200,10 @@ class Analyzer:
             return None
         if k == "Var":
             return env.get(n["v"])
+        if k in ("Ref", "RawRef") and n["e"].get("k") == "Field":
+            a = self.field_addr(n["e"])
+            if a is not None:
+                return a
         if k in ("Ref", "Deref", "Coerce", "RawRef"):
             return self.val(n["e"], env)
         if k == "Block":
@@ -208,7 +213,7 @@ class Analyzer:
             return None
         if k == "Cast":
             v = self.val(n["e"], env)
-            if v and v[0] in ("int", "sizeof", "sizemul", "slot", "ver"):
+            if v and v[0] in ("int", "sizeof", "sizemul", "slot", "ver", "addr"):
                 return v
             if v and v[0] == "bool":
                 return ("int", int(v[1]))
@@ -262,6 +267,12 @@ class Analyzer:
             return self.binop(op, a, b, env)
         if k == "Call":
             c = callee(n)
+            if c in ("*const T::add", "*mut T::add") and len(n["args"]) == 2:
+                a, k_ = self.val(n["args"][0], env), self.val(n["args"][1], env)
+                sz = self.size_of(subst_ty(n["targs"][0], env.get("$tsub"))) if n.get("targs") else None
+                if a and a[0] == "addr" and k_ and k_[0] == "int" and sz is not None:
+                    return ("addr", a[1], a[2] + k_[1] * sz)
+                return None
             if c in ("core::mem::size_of", "std::mem::size_of"):
                 return ("sizeof", subst_ty(n["targs"][0], env.get("$tsub")))
             if c in ("core::cmp::PartialEq::eq", "core::cmp::PartialEq::ne") and len(n["args"]) == 2:
@@ -284,6 +295,8 @@ class Analyzer:
                 return None
             if c == "savefile::IsPacked::no":
                 return ("bool", False)
+            if c == "savefile::IsPacked::yes":
+                return ("bool", True)
             if c.split("::")[-1] in BYTES_PASSTHROUGH and "::".join(c.split("::")[-2:]) in BYTES_PASSTHROUGH_Q and n["args"]:
                 v = self.val(n["args"][0], env)
                 if v and v[0] == "bytes":
@@ -299,7 +312,34 @@ class Analyzer:
             return None
         return None
 
+    def size_of(self, t):
+        from .packed import PRIM_SIZES
+        if t in PRIM_SIZES:
+            return PRIM_SIZES[t]
+        if t in ("bool",):
+            return 1
+        if t == "char":
+            return 4
+        lay = self.facts.layouts.get(t)
+        return lay.get("size") if lay else None
+
+    def field_addr(self, fld):
+        """address of a field of a value whose type has a known (monomorphic) layout: ('addr', T, offset)"""
+        base = fld["e"]
+        t = base.get("ty", "")
+        while t.startswith("&"):
+            t = re.sub(r"^&\s*('\w+\s+)?(mut\s+)?", "", t)
+        lay = self.facts.layouts.get(t)
+        if not lay or "fields" not in lay:
+            return None
+        for f in lay["fields"]:
+            if f["name"] == fld["f"]:
+                return ("addr", t, f["offset"])
+        return None
+
     def binop(self, op, a, b, env):
+        if a is not None and b is not None and a[0] == "addr" and b[0] == "addr" and a[1] == b[1] and op in ("Eq", "Ne"):
+            return ("bool", (a[2] == b[2]) == (op == "Eq"))
         if a is None or b is None:
             if op == "Mul":
                 for x in (a, b):
@@ -362,7 +402,11 @@ class Analyzer:
                 self.bind(pat["sub"], v, env)
         elif k in ("Leaf", "Variant"):
             for s in pat.get("subs", []):
-                self.bind(s["p"], None, env)
+                sub = s["p"]
+                if sub.get("k") == "Bind" and pat.get("adt") and "sub" not in sub:
+                    env[sub["v"]] = ("patfield", pat["adt"], pat.get("variant"), s["f"])
+                else:
+                    self.bind(sub, None, env)
         elif k == "Or":
             for p in pat["pats"]:
                 self.bind(p, None, env)
@@ -641,6 +685,7 @@ class Analyzer:
                 o.rok = EPS
                 return o, None
             e, v = self.expr(n["e"], env)
+            self.ret_vals.append(v)
             o = e.copy()
             kind = self.result_kind(n["e"])
             if kind == "err":
